@@ -185,8 +185,13 @@ def run_chunk(args):
         rc, err = 0, ""
     else:
         with open(ops, "w") as fo:
-            p = subprocess.run([exe, mode, str(seed), str(first), str(count)], stdout=fo, stderr=subprocess.PIPE, text=True, env=env)
-        rc, err = p.returncode, p.stderr
+            try:
+                p = subprocess.run([exe, mode, str(seed), str(first), str(count)], stdout=fo, stderr=subprocess.PIPE, text=True, env=env,
+                                   timeout=int(os.environ.get("VERIF_CHUNK_TIMEOUT", "900")))
+                rc, err = p.returncode, p.stderr
+            except subprocess.TimeoutExpired as te:
+                # the library did not return (e.g. an endless loop): reported like an abort, with the last case started
+                rc, err = -999, "TIMEOUT: harness chunk did not finish within the time limit\n" + ((te.stderr or b"").decode("utf-8", "replace") if isinstance(te.stderr, bytes) else (te.stderr or ""))
         for m in re.finditer(r"^STATS (\{.*\})$", err, re.M):
             try:
                 for k, v in json.loads(m.group(1)).items():
@@ -309,9 +314,15 @@ def replay_case(exe, where):
     """Re-run one case against the real code; returns (lines, verdicts)."""
     _, mode, seed, idx = where
     env = dict(os.environ, ASAN_OPTIONS="detect_leaks=0", UBSAN_OPTIONS="print_stacktrace=1")
-    p = subprocess.run([exe, mode, str(seed), str(idx), "1"], stdout=subprocess.PIPE, stderr=subprocess.PIPE, text=True, env=env)
-    d = subprocess.run([DRIVER], input=p.stdout, stdout=subprocess.PIPE, text=True)
-    return p.stdout.splitlines(), d.stdout.splitlines(), p.returncode, p.stderr[-2000:]
+    try:
+        p = subprocess.run([exe, mode, str(seed), str(idx), "1"], stdout=subprocess.PIPE, stderr=subprocess.PIPE, text=True, env=env,
+                           timeout=int(os.environ.get("VERIF_CASE_TIMEOUT", "120")))
+        out, rc, err = p.stdout, p.returncode, p.stderr
+    except subprocess.TimeoutExpired as te:
+        out = te.stdout.decode("utf-8", "replace") if isinstance(te.stdout, bytes) else (te.stdout or "")
+        rc, err = -999, "TIMEOUT: the case did not finish within the time limit (the library did not return)"
+    d = subprocess.run([DRIVER], input=out, stdout=subprocess.PIPE, text=True)
+    return out.splitlines(), d.stdout.splitlines(), rc, err[-2000:]
 
 
 def write_replay(pid, name, payload):
@@ -371,13 +382,27 @@ def main():
     # 1. proof obligations (VERIF_SKIP_LEAN=1 is honoured only for runs against another tree - the
     # mutation survey: the theorems are about the model and do not depend on the C++ tree under test)
     if ALT and os.environ.get("VERIF_SKIP_LEAN") == "1":
-        obligations, discharged, problems, lean_details = len(cfg["theorems"]), 0, [], {"skipped": "VERIF_SKIP_LEAN"}
+        obligations, discharged, problems, lean_details = len(cfg["theorems"]), 0, [], {"skipped": "VERIF_SKIP_LEAN", "axioms_used": [], "lean_modules": cfg["lean_modules"], "theorems": cfg["theorems"]}
     else:
         obligations, discharged, problems, lean_details = lean_audit(pid, cfg, tier == "thorough")
     for p in problems:
         log("PROOF-OBLIGATION BROKEN: " + p[:600])
 
     # 2. correspondence
+    # private copy of the driver: another check (or an edit of the Lean project) may relink the shared
+    # executable while this run is using it
+    global DRIVER
+    private_driver = os.path.join(BUILD, "run", "driver_%d" % os.getpid())
+    os.makedirs(os.path.dirname(private_driver), exist_ok=True)
+    for attempt in range(120):
+        try:
+            shutil.copy2(DRIVER, private_driver); break
+        except (FileNotFoundError, OSError):
+            time.sleep(1)
+    if os.path.exists(private_driver):
+        DRIVER = private_driver
+        import atexit
+        atexit.register(lambda p=private_driver, me=os.getpid(): os.getpid() == me and os.path.exists(p) and os.remove(p))
     harnesses = sorted({r[0] for r in cfg["runs"][tier]})
     exe_by_name, build_errors = {}, []
     for h in harnesses:
